@@ -63,9 +63,10 @@ def c09run (toks : List String) : String :=
     let tail := match fin with
       | none => "F~rejected"
       | some c =>
-        let ann := match c.phase with
-          | .done => (announceTask c.st.svc 0 c.st.now).schedule 3
-          | _ => []
+        -- the composition "check, registry add, announcement task" is the model's `registerRun` (theorem `C09_only_then`)
+        let ann := match registerRun allow valid asciiLower [] svc inst 0 w0 ws with
+          | some r => (match r.task with | some t => t.schedule 3 | none => [])
+          | none => []
         s!"F~{outcomeStr c.phase}~{hexOfStr c.st.svc.name}~" ++ ";".intercalate (ann.map (fun x => s!"{x.1}@{Pkt.canon x.2}"))
     " ".intercalate (blocks ++ [tail])
   | none => "bad-op"
